@@ -264,6 +264,8 @@ def call_external(self, st, name, args, kwargs, node):
             return self.raise_exc(st, type(e).__name__, node, "codecs", str(e))
         if isinstance(r, (str, bytes)):
             return [(st, "val", r)]
+    if name in ("six.text_type", "six.u") and len(args) == 1 and not kwargs and isinstance(args[0], str):
+        return [(st, "val", args[0])]
     if name in ("time.time",):
         return [(st, "val", Top("time", True))]
     if name.startswith(("operator.", "functools.", "itertools.", "collections.")):
